@@ -60,6 +60,7 @@ let () =
     | "addr" -> Model.run_addr oc
     | "pte" -> Model.run_pte oc
     | "mach" -> Model.run_mach oc
+    | "tbl" -> Model.run_tbl oc
     | _ -> failwith ("unknown engine " ^ engine) in
   let out = Buffer.create 65536 in
   (try
